@@ -315,8 +315,22 @@ func c09Target(c *Ctx) {
 			}
 			if v, ok := storeExact(in, "Request", "Host"); ok {
 				nHost++
-				cl, _ := CallOfValue(v)
-				fromTarget := cl != nil && cl.Call.StaticCallee() != nil && cl.Call.StaticCallee().Name() == "getHostWithoutPort" && IsFieldLoad(cl.Call.Args[0], "GunConfig", "Target")
+				// getHostWithoutPort(Config.Target), directly or as what a helper of the gun returns on every path
+				// (also from a memo entry it has just filled or found: the entry's fields stand for what is stored in them)
+				isTargetName := func(x ssa.Value) bool {
+					cl, _ := CallOfValue(x)
+					return cl != nil && cl.Call.StaticCallee() != nil && cl.Call.StaticCallee().Name() == "getHostWithoutPort" &&
+						DerivesOnly(cl.Call.Args[0], false, IsFieldLoadPred("GunConfig", "Target"))
+				}
+				fromTarget := DerivesOnly(v, false, isTargetName)
+				if !fromTarget {
+					fromTarget = true
+					for _, t := range ThroughReturns(v) {
+						if t == v || !DerivesOnly(t, false, isTargetName) {
+							fromTarget = false
+						}
+					}
+				}
 				empty := false
 				for _, f := range CmpFactsAt(in) {
 					if f.Op == token.EQL {
